@@ -1,5 +1,6 @@
 import MpVerif.C06.Lemmas
 import MpVerif.C06.LemmasReal
+import MpVerif.C06.LemmasPB
 import MpVerif.Gen.C06Prepro
 import Mathlib.Data.Rat.Floor
 import Mathlib.Algebra.Order.Ring.Pow
@@ -37,28 +38,22 @@ theorem C06_lin (e : Env) (val : Val) (h : Feasible e val) (c0 : Rat) (ts : LinT
 
 
 /-- **Quadratic expressions** (`ComputeBoundsAndType(QuadAndLinTerms)`, `ProductBounds` incl. the `x = y` square rule,
-`AddBoundsAndType`), for every box with **finite** bounds, every coefficient list, every mix of types.
-
-Partial: the full statement drops `hf : FinBox e`
-
-  theorem C06_quad (e val) (h : Feasible e val) (c0 ts qs) : ∃ pre, prepro e (.quad c0 ts qs) = .keep pre _ ∧ pre.Contains (eval …)
-
-What is missing is only `ProductBounds` on boxes with infinite bounds (the NaN-skipping `min_element`/`max_element` over
-corner products such as `0·∞`): everything else (`boundsQuadT_sound`, `addBounds_sound`, linear part, constant, narrowing)
-is proved for arbitrary `ER` bounds given soundness of `productBounds`.  Infinite boxes are covered by the correspondence
-and the sampling oracle only. -/
-theorem C06_quad_partial (e : Env) (val : Val) (h : Feasible e val) (hf : FinBox e) (c0 : Rat) (ts : LinT) (qs : QuadT) :
+`AddBoundsAndType`): bounds and INTEGER type are sound for EVERY box — finite, half-infinite and infinite bounds (the corner
+products `0·∞ = NaN` are skipped by `min_element`/`max_element` or make the whole bound NaN, which `narrow_result_bounds` drops) —
+every coefficient list and every mix of types.  (Round 4: the restriction to finite boxes of the former `C06_quad_partial` is gone.) -/
+theorem C06_quad (e : Env) (val : Val) (h : Feasible e val) (c0 : Rat) (ts : LinT) (qs : QuadT) :
     ∃ pre, prepro e (.quad c0 ts qs) = .keep pre (.quad c0 ts qs) ∧
       pre.Contains (Con.eval tr trp val (.quad c0 ts qs)) := by
   refine ⟨_, rfl, ?_⟩
-  have hq := boundsQuadT_sound e val h (productBounds_sound e val h hf) qs
+  have hq := boundsQuadT_sound e val h (productBounds_sound_all e val h) qs
   have := fresh_narrow_sound _ _ (withConst_sound _ _ c0 (addBounds_sound _ _ _ _ (boundsLin_sound e val h ts) hq))
   simpa [Con.eval, boundsQL, add_comm] using this
 
-/-- **`ProductBounds`** on finite boxes: corner products for `x ≠ y`, `[0 or min(lb²,ub²), max(lb²,ub²)]` for `x = y`. -/
-theorem C06_product_bounds (e : Env) (val : Val) (h : Feasible e val) (hf : FinBox e) (x y : Nat) :
+/-- **`ProductBounds`** on every box: corner products for `x ≠ y` (16 finite/infinite shapes of the four bounds, NaN corners
+included), `[0 or min(lb²,ub²), max(lb²,ub²)]` for `x = y`. -/
+theorem C06_product_bounds (e : Env) (val : Val) (h : Feasible e val) (x y : Nat) :
     lbW (productBounds e x y).1 (val x * val y) ∧ ubW (productBounds e x y).2 (val x * val y) :=
-  productBounds_sound e val h hf x y
+  productBounds_sound_all e val h x y
 
 /-! ## abs -/
 
@@ -1417,11 +1412,8 @@ example : Feasible exEnv exVal := by
 /-- the binary-argument hypothesis of C06_and / C06_or / C06_prop_down holds for variable 2 and fails for variable 0 -/
 example : isBinaryVar exEnv 2 = true ∧ isBinaryVar exEnv 0 = false := by decide +kernel
 
-/-- `FinBox` (hypothesis of C06_quad_partial / C06_product_bounds) holds for a genuinely two-sided finite box … -/
-example : FinBox (fun _ => { lb := fin (-3), ub := fin 5, int := false }) := fun _ => ⟨-3, 5, rfl, rfl⟩
-/-- … and fails for `exEnv` (variable 1 is unbounded above): the partial theorems do not cover it -/
-example : ¬ FinBox exEnv := by
-  intro h; obtain ⟨p, q, _, hq⟩ := h 1; simp [exEnv] at hq
+/-- `C06_quad` / `C06_product_bounds` need no finiteness: the box `exEnv` has an unbounded variable and a NaN corner (`0·∞`) -/
+example : (productBounds exEnv 1 2).2 = pinf ∧ mul (fin 0) pinf = nan := by decide +kernel
 
 /-- the instance that FAILED before fix 15ae342 satisfies every hypothesis of `C06_abs_assign`: x0 ∈ [7,9], x1 fixed at −2. -/
 def exAbsState : State :=
